@@ -398,7 +398,10 @@ def reentrant_hooks(ctx):
     adaptation must go on with the outer (interface, object) - hook N+1 is still called as hook(I, obj)."""
     saved = list(zi.adapter_hooks)
     try:
-        seqs = [h for n in (2, 3) for h in itertools.product('NVRE', repeat=n) if 'E' in h]
+        # E: re-enters adaptation; S: removes the hooks after itself from the list; G: appends another hook to the list
+        # (a hook that unregisters hooks, or registers one, while the list is being walked: the walk goes by the list
+        # as it is at each step, like a Python for loop)
+        seqs = [h for n in (2, 3) for h in itertools.product('NVRESG', repeat=n) if set(h) & set('ESG')]
         for hooks in seqs:
             for alt in ('absent', 'given'):
                 log = []
@@ -421,6 +424,18 @@ def reentrant_hooks(ctx):
                             if inner(obj2, None) is not None:
                                 state['bad_args'].append((n, 'nested adaptation returned something'))
                             return None
+                        if h == 'S':
+                            del zi.adapter_hooks[n + 1:]
+                            return None
+                        if h == 'G':
+                            def grown(i2, o2, n=n):
+                                if i2 is inner and o2 is obj2:
+                                    log.append('nested-grown%d' % n)
+                                    return None
+                                log.append('grown%d' % n)
+                                return state['hook_values'][n]
+                            zi.adapter_hooks.append(grown)
+                            return None
                         if h == 'V':
                             return state['hook_values'][n]
                         if h == 'R':
@@ -428,18 +443,28 @@ def reentrant_hooks(ctx):
                         return None
                     hs.append(hook)
                 zi.adapter_hooks[:] = hs
-                # reference
+                # reference: walk a model of the list the way a for loop does
                 elog, eout = [], None
-                for n, h in enumerate(hooks):
-                    elog.append('hook%d' % n)
-                    if h == 'E':
-                        elog.extend('nested-hook%d' % m for m in range(len(hooks)))
-                    elif h == 'V':
+                live = [('hook', n, h) for n, h in enumerate(hooks)]
+                i_ = 0
+                while i_ < len(live) and eout is None:
+                    kind_, n, h = live[i_]
+                    i_ += 1
+                    if kind_ == 'grown':
+                        elog.append('grown%d' % n)
                         eout = ('return', state['hook_values'][n])
                         break
+                    elog.append('hook%d' % n)
+                    if h == 'E':
+                        elog.extend(('nested-hook%d' % m) if k_ == 'hook' else ('nested-grown%d' % m) for k_, m, _h in live)
+                    elif h == 'S':
+                        del live[i_:]
+                    elif h == 'G':
+                        live.append(('grown', n, None))
+                    elif h == 'V':
+                        eout = ('return', state['hook_values'][n])
                     elif h == 'R':
                         eout = ('raise', state['hook_excs'][n])
-                        break
                 if eout is None:
                     eout = ('return', state['alt']) if alt == 'given' else ('could-not-adapt',)
                 got = observe((lambda: iface(obj, state['alt'])) if alt == 'given' else (lambda: iface(obj)))
